@@ -61,7 +61,10 @@ type Fetch struct {
 	Start   int // scheduler step at RoundTrip
 	End     int // scheduler step when the body was closed (or the error returned); -1 while in flight
 	VStart  time.Duration
-	Accept  bool // the real discard hook chain accepts the response
+	Accept  bool // the real discard hook chain accepts the response (what the writer acts on)
+	// Policy: the discard policy as the operator states it accepts the response - status not in
+	// --warc-discard-status and not a Cloudflare challenge page - computed without Zeno's hook chain
+	Policy bool
 	Written int  // scheduler step at which the fake WARC writer "wrote" it (-1 = not written)
 	// BodyLen is what the origin sent, BodyRead what the crawler had read when it closed the body:
 	// the WARC library records the bytes that crossed the connection, so an unread tail is lost.
@@ -292,7 +295,7 @@ func (w *World) record(dst *[]Msg, it *models.Item) {
 	for _, f := range w.Log {
 		if f.End < 0 {
 			m.InFlight = append(m.InFlight, f.URL)
-		} else if f.Accept && f.Written < 0 && f.Status != 0 {
+		} else if f.Policy && f.Written < 0 && f.Status != 0 {
 			m.Unwritten = append(m.Unwritten, f.URL)
 		}
 	}
@@ -388,6 +391,12 @@ func (t *transport) RoundTrip(req *http.Request) (*http.Response, error) {
 		discarded, _ = w.client.DiscardHook(resp)
 	}
 	f.Accept = !discarded
+	f.Policy = !(r.Status == 403 && h.Get("cf-mitigated") == "challenge")
+	for _, c := range config.Get().WARCDiscardStatus {
+		if c == r.Status {
+			f.Policy = false
+		}
+	}
 	fb, _ := req.Context().Value("feedback").(chan struct{})
 	w.mu.Lock()
 	w.BodiesOpen++
